@@ -341,6 +341,17 @@ impl<'a, F: IVP> SolOut for DefaultSolOut<'a, F> {
                                 self.next_idx = k;
                             }
 
+                            // A requested time emitted through the 1e-12 matching slack of an
+                            // earlier step may lie beyond the event: it is not part of the result
+                            while let Some(&tl) = self.t.last() {
+                                if (forward && tl > event_t) || (!forward && tl < event_t) {
+                                    self.t.pop();
+                                    self.y.pop();
+                                } else {
+                                    break;
+                                }
+                            }
+
                             // Add the terminal event point to the output (unless it coincides
                             // with the last reported sample, which then already is the event point)
                             if self.t.last() != Some(&event_t) {
